@@ -76,9 +76,8 @@ func Explore(cfg Config, p *vr.Partial) Stats {
 				break
 			}
 			p.Max("max_completed_depth", int64(d))
-			if len(p.Violations) > 0 {
-				break // shortest counterexamples found at this depth
-			}
+			// keep deepening even after a violation: the shallow one may be a listed known
+			// finding while a deeper, different one is not
 		}
 		return total
 	}
